@@ -17,7 +17,7 @@ func init() {
 		Explanation: "Decides the structural conditions of 'primary preferred, fail over only when it should' in doFallback and its two worker goroutines: (R1) a worker that signals a sibling by " +
 			"closing a channel queues its own (possibly non-nil) result on the FIFO result channel before the close whenever the woken sibling can still send an answer, and the 'primary done' " +
 			"signal is only given with a non-nil, error-free answer; (R2) without always_standby the secondary's Exec is only reachable through the gate select {done => return, failed, timer}; " +
-			"(R3) with always_standby a non-nil secondary answer is released only after the hold select {ctx, done, failed, timer}; (R4) each worker sends at most once on every path and the " +
+			"(R3) with always_standby a non-nil secondary answer is released only after the hold select {done, failed, timer}, which has no other case; (R4) each worker sends at most once on every path and the " +
 			"result channel's capacity covers all workers; (R5) the caller collects exactly as many results as workers, skips nil ones, watches its context, and reports failure only after all; " +
 			"(R6) workers run on copies of the query context made before they start, under a context derived from the caller's deadline. Timing relative to the threshold is not decided.",
 		Assumptions: []string{"Go channel FIFO order and close semantics"},
@@ -386,7 +386,7 @@ func runC20(c *Ctx) {
 	}
 
 	// ---------------------------------------------------------------- R3
-	c.rule("R3", "with always_standby a non-nil secondary answer is sent only after the hold select {ctx, done, failed, timer}", 1)
+	c.rule("R3", "with always_standby a non-nil secondary answer is sent only after the hold select {done, failed, timer}, which has no other case", 1)
 	{
 		var finalSends []ssa.Instruction
 		eachInstr(sec, func(in ssa.Instruction) {
@@ -414,17 +414,23 @@ func runC20(c *Ctx) {
 			hasFailed, hasTimer, hasDone := false, false, false
 			for _, cs := range hold.cases {
 				id := chanID(cs.State.Chan)
+				known := false
 				if id == doneCh {
-					hasDone = true
+					hasDone, known = true, true
 				}
 				for _, cl := range closes {
 					if cl.ch == id && id != doneCh {
-						hasFailed = true
+						hasFailed, known = true, true
 					}
 				}
 				if k, ok := loadedField(cs.State.Chan); ok && k == "time.Timer.C" {
-					hasTimer = true
+					hasTimer, known = true, true
 				}
+				// D50: the hold must not end for any other reason (the worker's own context carries the caller's
+				// deadline; a standby answer released then races with the caller's ctx case)
+				c.check(known, "hold-wakes-only-on-done-failed-timer@"+funcName(sec)+":"+exprStr(cs.State.Chan), instrPos(hold.sel),
+					"hold case is one of done, failed, timer",
+					"the hold select also wakes on "+exprStr(cs.State.Chan)+": a standby answer is released although the primary neither failed nor exceeded the threshold")
 			}
 			// from Exec, the send is reachable avoiding the hold only via edges alwaysStandby==false or r==nil
 			bypass := false
